@@ -313,7 +313,10 @@ func (f *Frame) applyContract(spec *UnitSpec, name string, c *ssa.CallCommon, si
 		return TV{}, false
 	}
 	mkEnv := func(cur *State, extra map[string]TV) *Env {
-		e := &Env{u: u, st: cur, old: pre, bound: map[string]boundVar{}, pkg: pkg, qctr: &u.qctr, fn: c.StaticCallee()}
+		e := &Env{u: u, st: cur, old: pre, bound: map[string]boundVar{}, pkg: pkg, qctr: &u.qctr, fn: c.StaticCallee(), callee: true, calleeGhosts: map[string]bool{}}
+		for _, g := range spec.Ghosts {
+			e.calleeGhosts[g.Name] = true
+		}
 		e.lookup = func(e *Env, n string) (TV, bool) {
 			if extra != nil {
 				if tv, ok := extra[n]; ok {
@@ -617,18 +620,43 @@ func (f *Frame) execBuiltin(b *ssa.Builtin, c *ssa.CallCommon, args []Val, st *S
 			asort := ArraySort(SInt, ArraySort(SInt, es))
 			arr := u.heapGet(st, class, asort)
 			na := u.defs.Fresh("copied", ArraySort(SInt, es))
-			// elements outside the destination slice keep their values
-			{
+			// copy(dst, src) moves exactly n = min(len(dst), len(src)) elements: dst[j] = src[j] for j < n (memmove
+			// semantics: the source values are those before the call); every other element of the array keeps its value
+			var srcLen Term
+			var srcElem func(j Term) Term
+			switch {
+			case args[1].T.Sort == SString:
+				srcLen = App("str.len", SInt, args[1].T)
+				srcElem = func(j Term) Term { return Select(App("str_bytes", ArraySort(SInt, SInt), args[1].T), j) }
+			case args[1].T.Sort == SSlice:
+				srcLen = App("s_len", SInt, args[1].T)
+				srcElem = func(j Term) Term {
+					return Select(Select(arr, App("s_arr", SInt, args[1].T)), App("+", SInt, App("s_off", SInt, args[1].T), j))
+				}
+			}
+			n := u.defs.Fresh("ncopy", SInt)
+			dOff := App("s_off", SInt, args[0].T)
+			oldArr := Select(arr, App("s_arr", SInt, args[0].T))
+			if srcLen.S != "" {
+				dLen := App("s_len", SInt, args[0].T)
+				u.assume(st, Eq(n, Ite(App("<=", SBool, dLen, srcLen), dLen, srcLen)))
 				u.qctr++
 				qj := Term{fmt.Sprintf("q%d_j", u.qctr), SInt}
-				dOff := App("s_off", SInt, args[0].T)
+				dEnd := u.defs.Define("copyend", App("+", SInt, dOff, n))
+				rel := App("-", SInt, qj, dOff)
+				u.assume(st, Term{fmt.Sprintf("(forall ((%s Int)) (! (and (=> (or (< %s %s) (>= %s %s)) (= (select %s %s) (select %s %s))) (=> (and (<= %s %s) (< %s %s)) (= (select %s %s) %s))) :pattern ((select %s %s))))",
+					qj.S, qj.S, dOff.S, qj.S, dEnd.S, na.S, qj.S, oldArr.S, qj.S,
+					dOff.S, qj.S, qj.S, dEnd.S, na.S, qj.S, srcElem(rel).S,
+					na.S, qj.S), SBool})
+			} else {
+				// source of an unmodelled sort: destination elements unknown, elements outside the destination slice keep their values
+				u.qctr++
+				qj := Term{fmt.Sprintf("q%d_j", u.qctr), SInt}
 				dEnd := App("+", SInt, dOff, App("s_len", SInt, args[0].T))
-				oldArr := Select(arr, App("s_arr", SInt, args[0].T))
 				u.assume(st, Term{fmt.Sprintf("(forall ((%s Int)) (! (=> (or (< %s %s) (>= %s %s)) (= (select %s %s) (select %s %s))) :pattern ((select %s %s))))", qj.S, qj.S, dOff.S, qj.S, dEnd.S, na.S, qj.S, oldArr.S, qj.S, na.S, qj.S), SBool})
+				u.assume(st, And(App(">=", SBool, n, IntLit(0)), App("<=", SBool, n, App("s_len", SInt, args[0].T))))
 			}
 			u.heapSet(st, class, u.defs.Define("H_"+class, Store(arr, App("s_arr", SInt, args[0].T), na)))
-			n := u.defs.Fresh("ncopy", SInt)
-			u.assume(st, And(App(">=", SBool, n, IntLit(0)), App("<=", SBool, n, App("s_len", SInt, args[0].T))))
 			// byte buffers: the decoded-field view (Enc.*) of the destination follows the source when both
 			// slices start at offset 0 of their arrays and the destination is at least as long
 			if sortOf(st0.Elem()) == SInt && args[1].T.Sort == SSlice {
@@ -809,6 +837,24 @@ func (f *Frame) atPoint(where string, st *State, b *ssa.BasicBlock, idx int) {
 				}
 			} else if f.lastCallResult.T.S != "" {
 				extra["$result"] = TV{T: f.lastCallResult.T, Ty: f.lastCallResult.Ty}
+			}
+		}
+		if where == "return" && f.pendingRet != nil {
+			if extra == nil {
+				extra = map[string]TV{}
+			}
+			for k, rv := range f.pendingRet {
+				if rv.T.S == "" {
+					continue
+				}
+				ty := rv.Ty
+				if ty == nil && f.fn.Signature.Results().Len() > k {
+					ty = f.fn.Signature.Results().At(k).Type()
+				}
+				extra[fmt.Sprintf("ret%d", k)] = TV{T: rv.T, Ty: ty}
+				if len(f.pendingRet) == 1 {
+					extra["result"] = TV{T: rv.T, Ty: ty}
+				}
 			}
 		}
 		// range indices of the enclosing range loops: $i<ordinal>
